@@ -149,6 +149,9 @@ Section Run.
                                 | _ => res_sexp newgroup_sexp (new_group cx (dec_mode mode) d f) end]
                          end) news)]
         end
+    | "c12", [SAtom formula; fr; na; extra] =>
+        L [res_sexp (fun x => x) (do m <- describe_string formula; model_obs m);
+           res_sexp design_sexp (build_design formula fr na extra)]
     | "c03", [SAtom formula; fr; na; extra] =>
         L [res_sexp design_sexp (build_design formula fr na extra);
            res_sexp (fun p => L [L (map (fun x => L [A (fst x); AN (snd x)]) (fst p));
